@@ -554,4 +554,71 @@ def tableGuarded (rs : List Route) : Bool := rs.all rowGuarded
 def findRoute (rs : List Route) (m : Method) (p : Str) : Option Route :=
   rs.find? fun r => r.method == m && r.path == p
 
+/-! ### reading the regenerated table (`Verif/Generated/AcmeRoutes.lean`, written by /verif/extract)
+
+  The extractor emits strings: (method, "<link type>/<url parameters>", middleware names outermost
+  first, handler name). Unknown names make the conversion fail (fail closed). -/
+
+def methodOfName : String → Option Method
+  | "GET" => some .GET | "HEAD" => some .HEAD | "POST" => some .POST | _ => none
+
+def mwOfName : String → Option Mw
+  | "linker.Middleware" => some .linker
+  | "checkPrerequisites" => some .checkPrerequisites
+  | "addNonce" => some .addNonce
+  | "addDirLink" => some .addDirLink
+  | "verifyContentType" => some .verifyContentType
+  | "parseJWS" => some .parseJWS
+  | "validateJWS" => some .validateJWS
+  | "extractJWK" => some .extractJWK
+  | "lookupJWK" => some .lookupJWK
+  | "extractOrLookupJWK" => some .extractOrLookupJWK
+  | "verifyAndExtractJWSPayload" => some .verifyPayload
+  | "isPostAsGet" => some .isPostAsGet
+  | _ => none
+
+def handlerOfName : String → Option RowHandler
+  | "GetNonce" => some .other
+  | "GetDirectory" => some .other
+  | "NewAccount" => some (.h .newAccount)
+  | "GetOrUpdateAccount" => some (.h .getOrUpdateAccount)
+  | "NotImplemented" => some (.h .keyChange)
+  | "NewOrder" => some (.h .newOrder)
+  | "GetOrder" => some (.h .getOrder)
+  | "GetOrdersByAccountID" => some (.h .ordersByAccount)
+  | "FinalizeOrder" => some (.h .finalize)
+  | "GetAuthorization" => some (.h .getAuthz)
+  | "GetChallenge" => some (.h .getChallenge)
+  | "GetCertificate" => some (.h .getCertificate)
+  | "RevokeCert" => some (.h .revokeCert)
+  | _ => none
+
+/-- `acme.GetUnescapedPathSuffix` for the registrations of `route` (parameters that the link type
+    ignores, like `{accID}` of key-change, are dropped exactly as that function drops them) -/
+def patternOfLink : String → Option Str
+  | "acme.NewNonceLinkType/{provisionerID}" => some (s "/{provisionerID}/new-nonce")
+  | "acme.DirectoryLinkType/{provisionerID}" => some (s "/{provisionerID}/directory")
+  | "acme.NewAccountLinkType/{provisionerID}" => some (s "/{provisionerID}/new-account")
+  | "acme.AccountLinkType/{provisionerID}/{accID}" => some (s "/{provisionerID}/account/{accID}")
+  | "acme.KeyChangeLinkType/{provisionerID}/{accID}" => some (s "/{provisionerID}/key-change")
+  | "acme.NewOrderLinkType/{provisionerID}" => some (s "/{provisionerID}/new-order")
+  | "acme.OrderLinkType/{provisionerID}/{ordID}" => some (s "/{provisionerID}/order/{ordID}")
+  | "acme.OrdersByAccountLinkType/{provisionerID}/{accID}" => some (s "/{provisionerID}/account/{accID}/orders")
+  | "acme.FinalizeLinkType/{provisionerID}/{ordID}" => some (s "/{provisionerID}/order/{ordID}/finalize")
+  | "acme.AuthzLinkType/{provisionerID}/{authzID}" => some (s "/{provisionerID}/authz/{authzID}")
+  | "acme.ChallengeLinkType/{provisionerID}/{authzID}/{chID}" => some (s "/{provisionerID}/challenge/{authzID}/{chID}")
+  | "acme.CertificateLinkType/{provisionerID}/{certID}" => some (s "/{provisionerID}/certificate/{certID}")
+  | "acme.RevokeCertLinkType/{provisionerID}" => some (s "/{provisionerID}/revoke-cert")
+  | _ => none
+
+def rowOfGenerated (r : String × String × List String × String) : Option Route := do
+  let m ← methodOfName r.1
+  let p ← patternOfLink r.2.1
+  let ch ← r.2.2.1.mapM mwOfName
+  let h ← handlerOfName r.2.2.2
+  pure ⟨m, p, ch, h⟩
+
+def ofGenerated (rows : List (String × String × List String × String)) : Option (List Route) :=
+  rows.mapM rowOfGenerated
+
 end Verif.AcmeAuth
